@@ -109,7 +109,15 @@ def main():
                 shutil.copy(notes, os.path.join(dst, "notes.md"))
                 meta["needs"] = open(notes).read()[:1500]
             meta["breaks"] = prop
-            meta["detected_by"] = [p for p, r in meta["checks"].items() if r["exit"] == 1]
+            oldp = os.path.join(dst, "meta.json")
+            if os.path.exists(oldp):
+                old = json.load(open(oldp))
+                meta["first_run_detected_by"] = old.get("first_run_detected_by", old.get("detected_by", []))
+                for pid, r in old.get("checks", {}).items():
+                    meta["checks"].setdefault(pid, r)
+                if old.get("summary"):
+                    meta["summary"] = old["summary"]
+            meta["detected_by"] = sorted(p for p, r in meta["checks"].items() if r["exit"] == 1)
             json.dump(meta, open(os.path.join(dst, "meta.json"), "w"), indent=1)
             print("stored", dst, "detected_by", meta["detected_by"])
         return 0 if confirmed else 4
